@@ -4,6 +4,7 @@ import AdfObdd.PreGround2
 import AdfObdd.Bridge
 import AdfObdd.FnRA
 import AdfObdd.FromParserProofs
+import AdfObdd.HybridExample
 /-! # C01 — the grounded interpretation is the least fixpoint, on every back-end
 
 `Gam D` is the three-valued consequence operator of the acceptance conditions `D` (a statement is
@@ -36,11 +37,32 @@ theorem grounded_native_is_lfp (fuel : Nat) (s : Store) (ac : List Nat) (w : WF 
     IsLfp (ac.map (eval s)) ((groundedLoop StoreRA fuel s ac).2.map storeIsConst) :=
   grounded_native fuel s ac w hv hf
 
-/-- native back-end end to end from the written formulas (`from_parser` then `grounded`) -/
-theorem grounded_native_from_formulas (n : Nat) (fms : List Fm) (hn : n ≤ VBOT) (hv : ∀ f ∈ fms, f.atomsOK) :
+/-- native back-end end to end from the written formulas (`from_parser` then `grounded`): the framework
+has exactly the statements `0 … fms.length-1`, one condition each, and every atom is one of them -/
+theorem grounded_native_from_formulas (fms : List Fm) (hn : fms.length ≤ VBOT)
+    (hv : ∀ f ∈ fms, NConc.atomsLt fms.length f) :
+    let b := buildNative fms.length fms
+    IsLfp (fms.map Fm.sem) ((groundedLoop StoreRA (fms.length + 1) b.1 b.2).2.map storeIsConst) :=
+  grounded_native_end_to_end fms.length fms hn (fun f hf => NConc.atomsOK_of_lt hn f (hv f hf))
+    (fms.length + 1) (Nat.lt_succ_self _)
+
+/-- the former, more general form (kept): `n` variable nodes created in advance for ANY `n ≤ Var::BOT`,
+conditions over any atoms below `Var::BOT` - also frameworks whose conditions mention variables that
+are not statements (`n` and `fms.length` unrelated) -/
+theorem grounded_native_from_formulas_any_n (n : Nat) (fms : List Fm) (hn : n ≤ VBOT) (hv : ∀ f ∈ fms, f.atomsOK) :
     let b := buildNative n fms
     IsLfp (fms.map Fm.sem) ((groundedLoop StoreRA (fms.length + 1) b.1 b.2).2.map storeIsConst) :=
   grounded_native_end_to_end n fms hn hv (fms.length + 1) (Nat.lt_succ_self _)
+
+/-- kernel-checked instance where a round really propagates: `s(a). s(b). s(c). ac(a,c(v)). ac(b,a).
+ac(c,neg(b)).` - round 1 decides `a`, round 2 `b`, round 3 `c`; the model's `grounded` on the compiled
+store reports `T T F` (through the theorem: least fixpoints are unique, and the least fixpoint of these
+three functions is computed by evaluation on the truth-table library, `Bio.tt_lfp`) -/
+example : (groundedLoop StoreRA 4 (buildNative 3 Bio.exChain).1 (buildNative 3 Bio.exChain).2).2.map storeIsConst =
+    [some true, some true, some false] := by
+  have h := grounded_native_from_formulas Bio.exChain (by simp [Bio.exChain, VBOT]) Bio.exChain_ok
+  have e := isLfp_unique h (Bio.tt_lfp Bio.exChain Bio.exChain_ok)
+  exact e.trans (by decide)
 
 /-- exactly one grounded interpretation: least fixpoints of the same length are equal, so all
 back-ends report the same one -/
@@ -61,6 +83,49 @@ theorem hybrid_bridge_then_native (d : List Node) (hd : DumpOK d) (hlen : 2 ≤ 
       t < (replayL (d.drop 2) s [0, 1]).1.nodes.size ∧ ∀ σ, eval (replayL (d.drop 2) s [0, 1]).1 t σ = f σ :=
   let x := bridge_correct d hd hlen s w
   ⟨x.1, x.2.2.2⟩
+
+/-- **hybrid back-end, end to end** (`adfbiodivine::Adf::hybrid_step_opt(opt)` then the native
+`Adf::grounded`; model `Bio.hybridStep`, HybridModel.lean): optional biodivine grounding → residual
+diagrams → dump of each diagram → replay through `Bdd::node` into ONE fresh native store, in statement
+order → native grounding loop. For BOTH values of the flag the reported vector is the least fixpoint of Γ
+for the ORIGINAL conditions `ac.map W.den`, and it is the vector biodivine's own `grounded` reports.
+
+ASSUMPTIONS ABOUT THE EXTERNAL CRATE (hypotheses, not axioms): `W : Bio.Lawful L n` (its operations
+compute what their names say, BioModel.lean) and `hd : Bio.DumpSpec W dump` (the textual dump of a
+non-constant diagram is an ordered table - two terminal entries first, children before parents, larger
+variables below - whose last entry denotes the diagram; DESIGN §4, checked on every real dump). -/
+theorem hybrid_grounded_is_lfp {T : Type} (L : Bio.Lib T) (n : Nat) (W : Bio.Lawful L n)
+    (dump : T → List Node) (hd : Bio.DumpSpec W dump) (opt : Bool)
+    (ac : List T) (hv : ∀ a ∈ ac, W.Valid a) (hn : ac.length = n) :
+    let r := Bio.hybridStep L dump opt ac
+    let out := (groundedLoop StoreRA (n + 1) r.1 r.2).2.map storeIsConst
+    IsLfp (ac.map W.den) out ∧ out = (Bio.bioGrounded L ac).map storeIsConst :=
+  Bio.hybrid_grounded W hd opt ac hv hn
+
+/-- the same from the WRITTEN framework: biodivine `from_parser` (`Bio.fromFormulas`: `eval_expression` of
+`to_boolean_expr` of each condition), `hybrid_step_opt`, native `grounded` = least fixpoint of Γ for the
+written conditions -/
+theorem hybrid_grounded_from_formulas {T : Type} (L : Bio.Lib T) (fms : List Fm) (W : Bio.Lawful L fms.length)
+    (dump : T → List Node) (hd : Bio.DumpSpec W dump) (opt : Bool)
+    (hv : ∀ f ∈ fms, NConc.atomsLt fms.length f) :
+    let r := Bio.hybridStep L dump opt (Bio.fromFormulas L fms)
+    IsLfp (fms.map Fm.sem) ((groundedLoop StoreRA (fms.length + 1) r.1 r.2).2.map storeIsConst) := by
+  have ⟨a, b, c, _⟩ := Bio.fromFormulas_spec fms W hv
+  have := (Bio.hybrid_grounded W hd opt _ b a).1
+  rw [c] at this; exact this
+
+/-- non-vacuity of the hybrid theorems: the truth-table library over two variables is lawful
+(`Bio.ttLawful 2`), its decision-tree dump satisfies `Bio.DumpSpec` (`Bio.ttDump2_spec`); on
+`s(a). s(b). ac(a,c(v)). ac(b,a).` the hybrid-built object's `grounded` reports `T T` for both flags - with
+`opt = true` biodivine propagates and the bridge only sees constants, with `opt = false` the diagram of
+`b`'s condition is dumped, replayed and the native loop propagates -/
+example (opt : Bool) :
+    let r := Bio.hybridStep (Bio.ttLib 2) Bio.ttDump2 opt (Bio.fromFormulas (Bio.ttLib 2) Bio.exChain2)
+    (groundedLoop StoreRA 3 r.1 r.2).2.map storeIsConst = [some true, some true] := by
+  have h := hybrid_grounded_from_formulas (Bio.ttLib 2) Bio.exChain2 (Bio.ttLawful 2) Bio.ttDump2
+    Bio.ttDump2_spec opt Bio.exChain2_ok
+  have e := isLfp_unique h (Bio.tt_lfp Bio.exChain2 Bio.exChain2_ok)
+  exact e.trans (by decide)
 
 /-- non-vacuity: `s(a). s(b). ac(a, c(v)). ac(b, a).` satisfies the hypotheses -/
 example : (∀ f ∈ [Fm.top, Fm.atom 0], f.atomsOK) ∧ 2 ≤ VBOT := by
